@@ -42,6 +42,8 @@ def build_file(spec):
     tm = [(SC.PROGRAM_TIDS[i], 100 * (i + 1), b'P%d_main' % i) for i in range(len(progs))]
     if spec['unmapped_last'] and len(tm) > 1:
         tm = tm[:-1]
+    if spec.get('no_map'):
+        tm = []
     recs = [kmodel.ev_record((1001 + 7 * k, tid, (EV.eid(code) & ~3) | q, data)) for k, (tid, code, q, data) in enumerate(evs)]
     return kmodel.v2_file(tm, 0, recs), evs, tm
 
@@ -101,6 +103,7 @@ def pred(b, cfg):
 
 def resolve_cfg(step, tm, dynamic):
     cfg = dict(step['cfg'])
+    tm = tm or [(SC.PROGRAM_TIDS[0], 100, b'P0_main')]
     procs = [None, tm[0][2].decode(), str(tm[0][1]), 'no-such-process', str(tm[-1][1]), 'P1_Xx']
     cfg['process'] = procs[cfg['process_i'] % len(procs)]
     tids = [None, tm[0][0], SC.PROGRAM_TIDS[1], 0x999, SC.PROGRAM_TIDS[2]]
@@ -259,7 +262,8 @@ def strategy():
     op = st.one_of(SC.op_strategy(), SC.op_strategy(), special)
     programs = st.lists(st.lists(op, min_size=1, max_size=5), min_size=2, max_size=3)
     fspec = st.fixed_dictionaries({'programs': programs, 'schedule': st.lists(st.integers(0, 2), max_size=60),
-                                   'dynamic': st.sampled_from([False, False, True]), 'unmapped_last': st.booleans()})
+                                   'dynamic': st.sampled_from([False, False, True]), 'unmapped_last': st.booleans(),
+                                   'no_map': st.sampled_from([False, False, False, True])})
     cfg = st.fixed_dictionaries({
         'tid_i': st.sampled_from([0, 0, 1, 2, 3, 4]), 'process_i': st.sampled_from([0, 0, 0, 1, 2, 3, 4, 5]),
         'classes': st.one_of(st.just([]), st.lists(st.sampled_from(CLASSES), min_size=1, max_size=3)),
